@@ -82,6 +82,22 @@ def decodeMap (s : Stream) : Dec :=
   | .array | .garbage => .err
   | .scalar | .truncated | .empty => Dec.lookahead s.ending .err
 
+/-- does the body END after the value just read?  elastic: `decoder.Token()` must return `io.EOF`. -/
+inductive Rest where
+  | ends      -- only white space up to the end of the body
+  | more      -- another token or a syntax error, at once
+  | never     -- no end of body before the deadline (stalled; endless filler: an upper bound on the time,
+              -- junk filler is refused at once, white-space filler is read until the deadline)
+  deriving Repr, DecidableEq
+
+def restOf (s : Stream) : Rest :=
+  match s.cls, s.ending with
+  | .objectTrailing, _ => .more
+  | .nullTail, _ => .more
+  | _, .eof => .ends
+  | _, .stall => .never
+  | _, .endless => .never
+
 /-- target `types.Info` / `types.Version` (docker, inside the moby client) -/
 def decodeStruct (s : Stream) : Dec :=
   match s.cls with
@@ -114,8 +130,10 @@ def clientDo (follow : Bool) (T : Nat) : Nat → Exchange → DoRes × Nat
       else if follow && redirect && !rest.isEmpty then clientDo follow T (t + delay) rest
       else (.resp status (if bodyless status then noBody body else body), t + delay)
 
-/-- does this tree follow redirects?  (unchanged tree: the default `http.Client` does) -/
-def followsRedirects : Bool := true
+/-- does this tree follow redirects?  Both scanners set `CheckRedirect` to `http.ErrUseLastResponse`
+    (repo fix b13c82f; before it the default client followed them and the record carried the body of
+    another endpoint), so a 30x answer is an ordinary response with its own body. -/
+def followsRedirects : Bool := false
 
 /-! ### results -/
 
@@ -157,15 +175,20 @@ inductive ScanOut where
 /-! ### elastic -/
 
 /-- `elasticClient.Get`: fresh `context.WithTimeout(ctx, dataTimeout)`, `client.Do`, `Decode(&data)`;
-    the status code is not looked at. -/
+    the status code is not looked at.  A nil map (`null`) is an error (repo fix addd353), and so is a body
+    that does not end after the object (repo fix b8b9ea2). -/
 def elasticGet (T : Nat) (x : Exchange) : Got × Nat :=
   match clientDo followsRedirects T 0 x with
   | (.err, t) => (.err, t)
   | (.timeout, t) => (.err, t)
   | (.resp _ body, t) =>
     match decodeMap body with
-    | .obj => (.val (fieldOf body), t)
-    | .nil => (.val .null, t)
+    | .obj =>
+      match restOf body with
+      | .ends => (.val (fieldOf body), t)
+      | .more => (.err, t)
+      | .never => (.err, T)
+    | .nil => (.err, t)
     | .err => (.err, t)
     | .timeout => (.err, T)
 
@@ -216,11 +239,33 @@ def dockerGet (T t0 : Nat) (x : Exchange) : Got × Nat :=
       | .err => (.err, tDrain)
       | .timeout => (.err, max t T)
 
-/-- `Scanner.Scan`: ONE `context.WithTimeout` for the whole probe; `Info` (fatal, preceded by the
-    negotiation ping), `ServerVersion` (error ignored) -/
+/-- `json.Unmarshal(body, &info)` of a COMPLETE body whose first non-blank byte is `{`: the whole input
+    must be one JSON value, and it must fit `types.Info` -/
+def unmarshalInfo : BodyClass → Bool
+  | .object | .objectEmpty | .objectWs => true
+  | _ => false
+
+/-- `Scanner.getInfo` (repo fix 79ad514; before it `moby.Client.Info`, i.e. `dockerGet`, which reported
+    `null`, trailing data and unended bodies): GET /v<negotiated>/info with the scanner's own client,
+    status outside 200..399 is an error (body not read), `io.ReadAll` of at most 8 MiB + 1, first
+    non-blank byte must be `{`, `json.Unmarshal` of the whole body. -/
+def dockerInfoGet (T t0 : Nat) (x : Exchange) : Got × Nat :=
+  match clientDo followsRedirects T t0 x with
+  | (.err, t) => (.err, t)
+  | (.timeout, t) => (.err, t)
+  | (.resp status body, t) =>
+    if status < 200 || 400 ≤ status then (.err, t)
+    else
+      match body.ending with
+      | .stall => (.err, max t T)
+      | .endless => (.err, max t T)    -- the size limit is hit some time before the deadline (upper bound)
+      | .eof => if unmarshalInfo body.cls then (.val (fieldOfStruct body), t) else (.err, t)
+
+/-- `Scanner.Scan`: ONE `context.WithTimeout` for the whole probe; negotiation ping, `getInfo` (fatal),
+    `ServerVersion` (moby; error ignored) -/
 def dockerScan (scheme ip : String) (T : Nat) (ping info ver : Exchange) : ScanOut × Nat :=
   let t0 := pingEnd T ping
-  match dockerGet T t0 info with
+  match dockerInfoGet T t0 info with
   | (.err, t1) => (.err, t1)
   | (.val f, t1) =>
     let (g2, t2) := dockerGet T t1 ver
